@@ -1,0 +1,67 @@
+//! Verification projections of `SrtlaConnection` (feature `verif-hooks`).
+//!
+//! Read-only view of the guard-private stall fields, the quality cache and
+//! the mirrored timeout, plus setters for the guard-private fields so a
+//! harness can materialise arbitrary latch / pull histories without replaying
+//! them. Compiled only with the feature; never used by production code.
+
+use super::SrtlaConnection;
+
+/// Guard-private and cache state that has no public accessor.
+#[derive(Clone, Debug, PartialEq)]
+pub struct ConnView {
+    pub stall_gated: bool,
+    pub stall_latched_since_ms: u64,
+    pub stall_recovery_since_ms: u64,
+    pub stall_gate_events: u64,
+    pub stall_probe_counter: u32,
+    pub silence_pulled: bool,
+    pub silence_pulls: u64,
+    pub conn_timeout_ms: u64,
+    pub quality_multiplier: f64,
+    pub quality_last_calculated_ms: u64,
+    pub last_keepalive_sent: Option<u64>,
+}
+
+impl SrtlaConnection {
+    pub fn verif_view(&self) -> ConnView {
+        ConnView {
+            stall_gated: self.stall_gated,
+            stall_latched_since_ms: self.stall_latched_since_ms,
+            stall_recovery_since_ms: self.stall_recovery_since_ms,
+            stall_gate_events: self.stall_gate_events,
+            stall_probe_counter: self.stall_probe_counter,
+            silence_pulled: self.silence_pulled,
+            silence_pulls: self.silence_pulls,
+            conn_timeout_ms: self.conn_timeout_ms,
+            quality_multiplier: self.quality_cache.multiplier,
+            quality_last_calculated_ms: self.quality_cache.last_calculated_ms,
+            last_keepalive_sent: self.last_keepalive_sent,
+        }
+    }
+
+    /// Set the guard-private stall fields directly.
+    pub fn verif_set_stall(
+        &mut self,
+        latched_since_ms: u64,
+        recovery_since_ms: u64,
+        silence_pulled: bool,
+        probe_counter: u32,
+    ) {
+        self.stall_latched_since_ms = latched_since_ms;
+        self.stall_recovery_since_ms = recovery_since_ms;
+        self.silence_pulled = silence_pulled;
+        self.stall_probe_counter = probe_counter;
+    }
+
+    /// Set the cached quality multiplier and its stamp directly.
+    pub fn verif_set_quality_cache(&mut self, multiplier: f64, last_calculated_ms: u64) {
+        self.quality_cache.multiplier = multiplier;
+        self.quality_cache.last_calculated_ms = last_calculated_ms;
+    }
+
+    /// Set the mirrored liveness timeout directly.
+    pub fn verif_set_conn_timeout_ms(&mut self, ms: u64) {
+        self.conn_timeout_ms = ms;
+    }
+}
